@@ -381,7 +381,7 @@ HLconvert(int32 aid, int32 block_length, int32 number_blocks)
 {
     filerec_t  *file_rec;                               /* file record */
     accrec_t   *access_rec = NULL;                      /* access record */
-    linkinfo_t *info;                                   /* information for the linked blocks elt */
+    linkinfo_t *info = NULL;                            /* information for the linked blocks elt */
     uint16      link_ref;                               /* the ref of the link structure
                                                            (block table) */
     int32  dd_aid;                                      /* AID for writing the special info */
@@ -517,9 +517,11 @@ HLconvert(int32 aid, int32 block_length, int32 number_blocks)
 
 done:
     if (ret_value == FAIL) { /* Error condition cleanup */
-        if (access_rec != NULL) {
-            free(access_rec->special_info);
-            HIrelease_accrec_node(access_rec);
+        /* The access record belongs to the caller, whose AID stays registered:
+           release only the special info allocated here, never the record itself */
+        if (info != NULL) {
+            free(info);
+            access_rec->special_info = NULL;
         }
     }
 
